@@ -82,6 +82,58 @@ Theorem C20_default_cycles_complete : forall rs st,
 Proof. exact dv_detect_complete. Qed.
 Print Assumptions C20_default_cycles_complete.
 
+(* Per-kind completeness for the kinds involved in the reproduced defects and for the cycle rules:
+   the kind is reported exactly when the rule is violated somewhere.  [all_invals] = every directive
+   argument, field argument and input field of the schema; [all_fields] = every object/interface
+   field. *)
+Theorem C20_kind_not_input_type : forall rs,
+  In KNotInputType (validate rs) <->
+  exists iv, In iv (all_invals rs) /\ is_input_tref rs (iv_type iv) = false.
+Proof. exact kind_not_input_type. Qed.
+Print Assumptions C20_kind_not_input_type.
+
+Theorem C20_kind_not_output_type : forall rs,
+  In KNotOutputType (validate rs) <->
+  exists f, In f (all_fields rs) /\ is_output_tref rs (f_type f) = false.
+Proof. exact kind_not_output_type. Qed.
+Print Assumptions C20_kind_not_output_type.
+
+Theorem C20_kind_invalid_default : forall rs,
+  In KInvalidDefault (validate rs) <->
+  exists iv v, In iv (all_invals rs) /\ iv_default iv = DLit v
+               /\ is_input_tref rs (iv_type iv) = true /\ lit_check rs v (iv_type iv) = RInvalid.
+Proof. exact kind_invalid_default. Qed.
+Print Assumptions C20_kind_invalid_default.
+
+Theorem C20_kind_required_deprecated : forall rs,
+  In KRequiredDeprecated (validate rs) <->
+  exists iv, In iv (all_invals rs) /\ required iv = true /\ iv_dep iv = true.
+Proof. exact kind_required_deprecated. Qed.
+Print Assumptions C20_kind_required_deprecated.
+
+Theorem C20_kind_nonnull_cycle : forall rs,
+  In KNonNullCycle (validate rs) <-> exists n, reach (nn_succ rs) n n.
+Proof. exact kind_nonnull_cycle. Qed.
+Print Assumptions C20_kind_nonnull_cycle.
+
+Theorem C20_kind_default_cycle : forall rs,
+  In KDefaultCycle (validate rs) <-> exists nd, reach (dv_succ rs) nd nd.
+Proof. exact kind_default_cycle. Qed.
+Print Assumptions C20_kind_default_cycle.
+
+(* A request against an invalid schema returns the schema errors and nothing else; it proceeds to
+   document validation/execution exactly for the valid schemas.  (The model of graphql_impl's first
+   statement is a two-line definition; the implementation side is checked by the correspondence.) *)
+Theorem C20_invalid_schema_response : forall rs,
+  (forall k ks, validate rs = k :: ks -> request rs = ErrorsOnly (k :: ks))
+  /\ (request rs = Proceeds <-> ValidSchema rs).
+Proof.
+  intro rs. unfold request. split.
+  - intros k ks H. rewrite H. reflexivity.
+  - rewrite <- validate_reflects. destruct (validate rs); split; intro H; congruence.
+Qed.
+Print Assumptions C20_invalid_schema_response.
+
 (* ---- non-vacuity.  Names: 2 Query, 4 Int, 6 I, 8 A, 10 f, 12 x, 14 a *)
 Definition ex_int : N * tdef := (4, DScalar SInt).
 
